@@ -172,6 +172,15 @@ func (b *bsym) extern(fn *ssa.Function, args []interface{}) interface{} {
 		case "IsNaN":
 			return false
 		case "IsInf":
+			if len(ts) > 0 {
+				sign, _ := args[1].(int64)
+				switch ts[0].Op {
+				case "f:pinf":
+					return sign >= 0
+				case "f:ninf":
+					return sign <= 0
+				}
+			}
 			return false
 		case "Inf":
 			if args[0].(int64) >= 0 {
@@ -180,6 +189,14 @@ func (b *bsym) extern(fn *ssa.Function, args []interface{}) interface{} {
 			return App("ninf", SReal)
 		case "NaN":
 			return App("nan", SReal)
+		case "Log":
+			if len(ts) == 1 && ts[0].IsRealLit() && ts[0].RatVal().Sign() == 0 {
+				return App("ninf", SReal)
+			}
+		case "Exp":
+			if len(ts) == 1 && ts[0].Op == "f:ninf" {
+				return RealOfInt(0)
+			}
 		case "Pow":
 			return PowTerm(ts[0], ts[1])
 		case "Sqrt":
@@ -194,6 +211,46 @@ func (b *bsym) extern(fn *ssa.Function, args []interface{}) interface{} {
 			return Ite(Ge(ts[1], z), Ite(Ge(ts[0], z), ts[0], Neg(ts[0])), Ite(Ge(ts[0], z), Neg(ts[0]), ts[0]))
 		}
 		return App(strings.ToLower(name), SReal, ts...)
+	case "github.com/pbenner/threadpool":
+		// sequential model of the external thread pool: one thread (id 0), jobs run at once in index order
+		// (schedules and races are outside this technique, property C17)
+		nilErr := &biface{}
+		_ = nilErr
+		callJob := func(f interface{}, a ...interface{}) interface{} {
+			clo, _ := f.(*bclosure)
+			if clo == nil {
+				panic(bsymPanic{"call of nil job"})
+			}
+			return b.call(clo.fn, a, clo.free)
+		}
+		errf := &bclosure{fn: nil}
+		_ = errf
+		switch name {
+		case "Nil", "New":
+			return b.zero(fn.Signature.Results().At(0).Type())
+		case "NumberOfThreads":
+			return int64(1)
+		case "GetThreadId":
+			return int64(0)
+		case "NewJobGroup":
+			return int64(0)
+		case "Wait":
+			return b.zero(errType)
+		case "AddRangeJob", "RangeJob":
+			// (t, iFrom, iTo, [jobGroup,] f)
+			from, to := args[1].(int64), args[2].(int64)
+			f := args[len(args)-1]
+			for i := from; i < to; i++ {
+				r := callJob(f, i, args[0], b.zero(fn.Signature.Params().At(fn.Signature.Params().Len()-1).Type().Underlying().(*types.Signature).Params().At(2).Type()))
+				if !isNilVal(r) {
+					return r
+				}
+			}
+			return b.zero(errType)
+		case "AddJob", "Job":
+			f := args[len(args)-1]
+			return callJob(f, args[0], b.zero(fn.Signature.Params().At(fn.Signature.Params().Len()-1).Type().Underlying().(*types.Signature).Params().At(1).Type()))
+		}
 	case "fmt":
 		switch name {
 		case "Sprintf":
